@@ -370,9 +370,12 @@ def find_or_make_sum(ex, st, body, lo, hi):
             same_len = (hi - lo) == (ss.hi - ss.lo)
             d = z3.simplify(lo - ss.lo)
             c = z3.simplify(lo + ss.hi - 1)
-            for how, other in (("same", ss.body(j)) if z3.is_int_value(d) and d.as_long() == 0 else ("shift", ss.body(z3.simplify(j - d))),
-                               ("reflect", ss.body(z3.simplify(c - j)))):
-                goal = z3.And(same_len, z3.Implies(z3.And(lo <= j, j < hi), bj == other))
+            tries = [("same", ss.body(j), z3.BoolVal(True))]
+            if not (z3.is_int_value(d) and d.as_long() == 0):
+                tries.append(("shift", ss.body(z3.simplify(j - d)), same_len))
+            tries.append(("reflect", ss.body(z3.simplify(c - j)), same_len))
+            for how, other, side in tries:
+                goal = z3.And(side, z3.Implies(z3.And(lo <= j, j < hi), bj == other))
                 ob = Obligation(id="sigma-match", kind="lemma", func=ctx.func, label="sigma-extensionality", pc=list(st.pc),
                                 goal=goal, qassumes=list(st.qassumes), sums=[("term", j)])
                 r = check(ob, ctx, timeout_ms=500, want_model=False, use_cvc5=False, wall_ms=3000)
